@@ -108,8 +108,12 @@ def attr_desc(eng, st, v, init):
             for it in items:
                 x = it[1] if isinstance(it, tuple) and len(it) > 1 else None
                 vals.append(x.k if isinstance(x, NumV) and x.sym is None else None)
-            if len(vals) == 3 and all(x is not None for x in vals) and p[1] == HEX2_TEMPLATE:
-                return '%02x%02x%02x' % tuple(vals)
+            if all(x is not None for x in vals):
+                from . import fmtspec
+                r_ = fmtspec.render_hex(fmtspec.decode(p[1] if len(p) > 1 else None),
+                                        tuple((it[0] if isinstance(it, tuple) and it else '?', v_) for it, v_ in zip(items, vals)))
+                if r_ is not None:
+                    return r_
             return ('format?', str(p)[:60])
         return ('str?', str(p)[:60])
     if isinstance(v, BoolV):
@@ -148,13 +152,15 @@ def run_c08(ctx, chk):
         for i, e in enumerate(pal.known):
             p = e.prov if isinstance(e, StrV) else None
             vals = None
+            got = e.known if isinstance(e, StrV) and e.known is not None else None
             if isinstance(p, tuple) and p and p[0] == 'format' and len(p) > 2:
+                from . import fmtspec
                 vals = tuple((it[1].k if isinstance(it, tuple) and len(it) > 1 and isinstance(it[1], NumV) and it[1].sym is None else None) for it in p[2])
-                if p[1] != HEX2_TEMPLATE:
-                    bad.append('entry %d is formatted with a template other than {:02x}{:02x}{:02x}' % i)
-                    break
-            if vals != PALETTE[i]:
-                bad.append('entry %d is %s, xterm palette has %s' % (i, vals, PALETTE[i]))
+                if all(v_ is not None for v_ in vals):
+                    got = fmtspec.render_hex(fmtspec.decode(p[1]), tuple((it[0], v_) for it, v_ in zip(p[2], vals)))
+            want = '%02x%02x%02x' % PALETTE[i]
+            if got != want:
+                bad.append('entry %d is %s, xterm palette has %s' % (i, got if got is not None else vals, want))
                 if len(bad) > 3:
                     break
     chk.instance('R-TABLE', 'graphics::FG_BG_256', 'all 256 entries (RGB triple and rrggbb formatter)', ok and not bad,
